@@ -62,7 +62,15 @@ def walk(ctx, inst, filter_spec, stats):
     def rec():
         if r.complete():
             stats["leaves"] += 1
-            return max(r.machine_end)
+            # the makespan of this history is read from the REAL dispatcher
+            d.reset()
+            for o, m in path:
+                d.dispatch(run.op(o), m)
+            real = d.schedule.makespan()
+            if real != max(r.machine_end) or not d.schedule.is_complete():
+                stats["leaf_mismatch"] = {"history": list(path), "real_makespan": real,
+                                          "reference_makespan": max(r.machine_end)}
+            return real
         key = r.copy_state()
         if key in memo:
             return memo[key]
@@ -109,6 +117,8 @@ def run_case(ctx, case):
         ctx.count("instances_abandoned_node_budget")
         return
     ctx.count("instances_fully_walked")
+    if "leaf_mismatch" in stats:
+        ctx.violation("c08_history_makespan_differs_from_reference", stats["leaf_mismatch"])
     ctx.count("leaves_reached", stats["leaves"])
     ctx.count("tree_nodes_expanded", stats["nodes"])
     ctx.count("branches_pruned", stats["pruned"])
